@@ -207,6 +207,19 @@ def stale_parent_cases():
             ev = valtrace.observe_tree(root)
             ev["desc"] = {"base": "root with a stale parent pointer", "root": nm, "how": way}
             evs.append(ev)
+    # parent POINTERS that form a loop although the child lists are a finite tree: a pair turned upside down through the public
+    # API (remove_child leaves the child's pointer; the old parent becomes the child's child)
+    for outer, inner in (("taxonomicClassification", "taxonomicClassification"), ("metadata", "zzAny")):
+        Node.store.clear()
+        p = Node(outer)
+        c = Node(inner)
+        p.add_child(c)
+        p.remove_child(c)
+        c.add_child(p)
+        c.add_child(Node("title", content="t"))
+        ev = valtrace.observe_tree(c)
+        ev["desc"] = {"base": "parent pointers form a loop (pair turned upside down with remove_child / add_child)", "outer": outer, "inner": inner}
+        evs.append(ev)
     Node.store.clear()
     return evs
 
